@@ -45,7 +45,14 @@ class Program:
 
     def trait_impl_method(self, self_ty, trait_suffix, method):
         r = [b for b in self.find(impl_self=self_ty, impl_trait=trait_suffix, assoc=method)]
-        return r[0] if len(r) == 1 else None
+        if len(r) == 1:
+            return r[0]
+        if not r:
+            # the impl does not override the method: the trait's provided body (if any) is what runs for this type
+            d = [b for p, b in self.bodies.items() if p.endswith('%s::%s' % (trait_suffix, method)) and not b.raw.get('impl_self') and b.kind != 'Closure']
+            if len(d) == 1:
+                return d[0]
+        return None
 
     def reachable_bodies(self, entry_paths, follow_virtual=None):
         """Crate-local call graph closure (static calls + closures of visited bodies).
@@ -334,8 +341,28 @@ class Body:
                 continue
             for key, tg in self.switch_edges(d):
                 if bi in self.edge_dominated(d, key):
-                    out.append((d, key))
+                    out.append((d, self._named_otherwise(d) if key == 'otherwise' else key))
         return out
+
+    def _named_otherwise(self, sw):
+        """The `otherwise` edge of a switch on an enum discriminant that lists all variants but one *is* that variant
+        (`if let Some(x) = o {..} else {..}` switches [1 -> then, otherwise -> else]): name it, so that both spellings of a
+        two-way match give the same guard key."""
+        t = self.blocks[sw]['term']
+        op = t['discr']
+        if op.get('k') not in ('copy', 'move') or op['place']['proj']:
+            return 'otherwise'
+        loc = op['place']['local']
+        nv = None
+        for d in self.defs().get(loc, []):
+            if d[0] == 'st' and d[3]['rv'].get('k') == 'discr':
+                nv = d[3]['rv'].get('nvariants', -1)
+            else:
+                return 'otherwise'
+        explicit = {int(v) for v, tg in t['targets']}
+        if nv is not None and nv > 0 and len(explicit) == nv - 1 and explicit <= set(range(nv)):
+            return (set(range(nv)) - explicit).pop()
+        return 'otherwise'
 
     def reaches(self, a, b, avoid=()):
         """Is block b reachable from block a (through >=0 edges) without entering blocks in avoid?"""
@@ -647,7 +674,44 @@ class Body:
 
     def guard_terms(self, bi):
         """[(discr_term, key, switch_block)] for every switch edge dominating block bi."""
-        return [(self.switch_atom(d), key, d) for d, key in self.guards(bi)]
+        return [_positive_guard(self.switch_atom(d), key) + (d,) for d, key in self.guards(bi)]
+
+
+def _positive_guard(t, key):
+    """A boolean branch condition `!c`, `c == false`, `c != true` ... taken with `key` is the condition c taken with the opposite key."""
+    while key in (0, 1, 'otherwise'):
+        s = strip(t)
+        if not isinstance(s, tuple):
+            break
+        flip = None
+        if s[0] == 'un' and s[1] == 'Not' and _is_boolish(s[2]):
+            inner, flip = s[2], True
+        elif s[0] == 'bin' and s[1] in ('Eq', 'Ne'):
+            for a, b in ((s[2], s[3]), (s[3], s[2])):
+                sb = strip(b)
+                if isinstance(sb, tuple) and sb[0] == 'const' and sb[1] == 'bool':
+                    inner = a
+                    flip = (bool(sb[2]) is False) == (s[1] == 'Eq')
+                    break
+        if flip is None:
+            break
+        t = inner
+        if flip:
+            key = 'otherwise' if key == 0 else 0
+    return (t, key)
+
+
+def _is_boolish(t):
+    s = strip(t)
+    if not isinstance(s, tuple):
+        return False
+    if s[0] == 'bin' and s[1] in ('Eq', 'Ne', 'Lt', 'Le', 'Gt', 'Ge'):
+        return True
+    if s[0] == 'un' and s[1] == 'Not':
+        return _is_boolish(s[2])
+    if s[0] == 'call':
+        return True          # `!f(..)` on an integer would be a bit operation, which is never a branch condition on its own
+    return s[0] in ('var', 'mutb', 'param', 'fld', 'deref', 'const')
 
 
 def index_term(t, it):
